@@ -334,6 +334,13 @@ def build(repo):
         raise Refuse("Edge::verify: the verified message is no longer hash().as_bytes() under verifying_key")
     if not re.search(r"let hash = self\.hash\(\);\s*let signature = signing_key\.sign\(hash\.as_bytes\(\)\);\s*self\.signature = signature;", sbody):
         raise Refuse("Edge::sign: the signed message is no longer hash().as_bytes()")
+    # does sign() evaluate the size bound before the signature field is filled in?
+    sign_size_first = None
+    ms = re.search(r"let size = self\.len\(\);\s*if size > MAX_EDGE_LENTGH", sbody)
+    if maxlen is not None:
+        if not ms:
+            raise Refuse("Edge::sign: size check not understood")
+        sign_size_first = ms.start() < sbody.index("self.signature = signature;")
     _, hbody = fn_block(impl, "hash", "impl Edge")
     fields, residue = parse_digest(hbody, {"self": ty["Edge"]}, uid, "Edge::hash", nonempty=nonempty)
     check_residue(residue, "Edge::hash")
@@ -457,6 +464,9 @@ def build(repo):
     L.append("Definition layouts : list layout := [%s]." % "; ".join(k + "_layout" for k in kinds))
     L.append("Definition layout_names : list (list string) := [%s]." % "; ".join(k + "_names" for k in kinds))
     L.append("Definition layout_struct_fields : list (list string) := [%s]." % "; ".join(k + "_struct_fields" for k in kinds))
+    L.append("")
+    L.append("(* Edge::sign evaluates the size bound while the signature field is still empty (verify() counts the 64 signature bytes) *)")
+    L.append("Definition sign_size_excludes_signature : bool := %s." % ("true" if sign_size_first else "false"))
     L.append("")
     L.append("(* callers of GraphDatabaseService::sign (the raw signing service) and what they submit *)")
     L.append("Definition sign_callers : list sign_request_kind := [%s]." % "; ".join(c for (_, c) in callers))
